@@ -246,6 +246,16 @@ func reifyMap(opts *options, to reflect.Value, from *Config, validators []valida
 		return raiseValidation(from.ctx, from.metadata, "", err)
 	}
 
+	// entries of the map that did not receive a setting must validate as well
+	for _, key := range to.MapKeys() {
+		if _, touched := fields[key.String()]; touched {
+			continue
+		}
+		if err := tryRecursiveValidate(to.MapIndex(key), opts, nil); err != nil {
+			return raiseValidation(from.ctx, from.metadata, key.String(), err)
+		}
+	}
+
 	return nil
 }
 
